@@ -173,4 +173,45 @@ let spec_case (line : string) : string =
             | n :: _ -> Printf.sprintf "[%d] %s" (ni n) (name_of (ni n))))
   | _ -> failwith "bad spec line"
 
-let engines = [ "cache", run_case; "cache-spec", spec_case ]
+(* ---- the pointer-level model: same line as the C driver prints, including the raw
+   next/prev members ---- *)
+let show_rstate (r : CacheRing.rst) : string =
+  let open CacheRing in
+  let n = 2 * ni r.rcap in
+  let ent i =
+    let e = nat_of_int i in
+    let d = r.rdata e in
+    Printf.sprintf "%s:%s:%d:%s:%s" (hex_of_n (r.rkey e)) (show_estate (r.rest e)) (ni (r.rref e))
+      (match d with Some t -> string_of_int (ni t) | None -> "-1")
+      (match d with
+       | Some t -> (match r.rcontent t with Some k -> hex_of_n k | None -> "-")
+       | None -> "-") in
+  let arr f = String.concat "," (Stdlib.List.map (fun i -> string_of_int (ni (f (nat_of_int i)))) (seq 0 n)) in
+  Printf.sprintf "cap=%d split=%d np=%d ngp=%d nq=%d ngq=%d dp=%d nin=%d ring=%s infl=%s ent=%s hm=%s,%s pend=%s plain=%s raw=%d nx=%s pv=%s"
+    (ni r.rcap) (ni r.split) (ni r.nprec) (ni r.ngprec) (ni r.nprobe) (ni r.ngprobe) (ni r.rdprobe)
+    (ni r.ninflight) (ilist (rwalk r)) (ilist (iwalk r))
+    (String.concat ";" (Stdlib.List.map ent (seq 0 n)))
+    (hex_of_n r.rhits) (hex_of_n r.rmisses) (ilist r.rpend) (ilist r.rplain)
+    (ni r.inflight) (arr r.nx) (arr r.pv)
+
+let show_rfault = function
+  | CacheRing.RF f -> show_fault f
+  | CacheRing.CounterUnderflow -> "CounterUnderflow"
+
+let show_rout = function
+  | CacheRing.ROSkip -> "skip"
+  | CacheRing.ROStep (o, r, ev, s) -> show_op o ^ " " ^ show_ret r ^ " " ^ show_ev ev ^ " # " ^ show_rstate s
+  | CacheRing.ROFault (o, f) -> "FAULT " ^ show_op o ^ " " ^ show_rfault f
+  | CacheRing.RODead -> "-"
+
+let ring_case (line : string) : string =
+  match words line with
+  | [] -> failwith "empty case"
+  | c :: ops ->
+      let c = if String.length c > 0 && c.[String.length c - 1] = 'u'
+              then String.sub c 0 (String.length c - 1) else c in
+      let r0 = CacheRing.rinit (nat_of_int (int_of_string c)) in
+      let outs = CacheRing.rrun_slots r0 (Stdlib.List.map parse_sop ops) in
+      String.concat " | " (("init # " ^ show_rstate r0) :: Stdlib.List.map show_rout outs)
+
+let engines = [ "cache", run_case; "cache-spec", spec_case; "cache-ring", ring_case ]
